@@ -14,6 +14,7 @@
 
 //! Elixir Date, Time, and DateTime type support.
 
+use crate::int_field::narrow_field;
 use erltf::{Atom, OwnedTerm};
 use serde::{Deserialize, Serialize};
 use std::collections::BTreeMap;
@@ -87,11 +88,9 @@ impl ElixirDate {
         }
 
         let map = term.as_map()?;
-        let year = map.get(&OwnedTerm::Atom(Atom::new("year")))?.as_integer()? as i32;
-        let month = map
-            .get(&OwnedTerm::Atom(Atom::new("month")))?
-            .as_integer()? as u8;
-        let day = map.get(&OwnedTerm::Atom(Atom::new("day")))?.as_integer()? as u8;
+        let year = narrow_field::<i32>(map.get(&OwnedTerm::Atom(Atom::new("year")))?)?;
+        let month = narrow_field::<u8>(map.get(&OwnedTerm::Atom(Atom::new("month")))?)?;
+        let day = narrow_field::<u8>(map.get(&OwnedTerm::Atom(Atom::new("day")))?)?;
 
         Some(Self { year, month, day })
     }
@@ -215,21 +214,15 @@ impl ElixirTime {
         }
 
         let map = term.as_map()?;
-        let hour = map.get(&OwnedTerm::Atom(Atom::new("hour")))?.as_integer()? as u8;
-        let minute = map
-            .get(&OwnedTerm::Atom(Atom::new("minute")))?
-            .as_integer()? as u8;
-        let second = map
-            .get(&OwnedTerm::Atom(Atom::new("second")))?
-            .as_integer()? as u8;
+        let hour = narrow_field::<u8>(map.get(&OwnedTerm::Atom(Atom::new("hour")))?)?;
+        let minute = narrow_field::<u8>(map.get(&OwnedTerm::Atom(Atom::new("minute")))?)?;
+        let second = narrow_field::<u8>(map.get(&OwnedTerm::Atom(Atom::new("second")))?)?;
 
         let (microsecond_value, microsecond_precision) =
             if let Some(us) = map.get(&OwnedTerm::Atom(Atom::new("microsecond"))) {
-                if let Some((val, prec)) = us.as_2_tuple() {
-                    (val.as_integer()? as u32, prec.as_integer()? as u8)
-                } else {
-                    (0, 0)
-                }
+                // present but not {Value, Precision}: not a well-formed struct
+                let (val, prec) = us.as_2_tuple()?;
+                (narrow_field::<u32>(val)?, narrow_field::<u8>(prec)?)
             } else {
                 (0, 0)
             };
@@ -409,26 +402,18 @@ impl ElixirNaiveDateTime {
         }
 
         let map = term.as_map()?;
-        let year = map.get(&OwnedTerm::Atom(Atom::new("year")))?.as_integer()? as i32;
-        let month = map
-            .get(&OwnedTerm::Atom(Atom::new("month")))?
-            .as_integer()? as u8;
-        let day = map.get(&OwnedTerm::Atom(Atom::new("day")))?.as_integer()? as u8;
-        let hour = map.get(&OwnedTerm::Atom(Atom::new("hour")))?.as_integer()? as u8;
-        let minute = map
-            .get(&OwnedTerm::Atom(Atom::new("minute")))?
-            .as_integer()? as u8;
-        let second = map
-            .get(&OwnedTerm::Atom(Atom::new("second")))?
-            .as_integer()? as u8;
+        let year = narrow_field::<i32>(map.get(&OwnedTerm::Atom(Atom::new("year")))?)?;
+        let month = narrow_field::<u8>(map.get(&OwnedTerm::Atom(Atom::new("month")))?)?;
+        let day = narrow_field::<u8>(map.get(&OwnedTerm::Atom(Atom::new("day")))?)?;
+        let hour = narrow_field::<u8>(map.get(&OwnedTerm::Atom(Atom::new("hour")))?)?;
+        let minute = narrow_field::<u8>(map.get(&OwnedTerm::Atom(Atom::new("minute")))?)?;
+        let second = narrow_field::<u8>(map.get(&OwnedTerm::Atom(Atom::new("second")))?)?;
 
         let (microsecond_value, microsecond_precision) =
             if let Some(us) = map.get(&OwnedTerm::Atom(Atom::new("microsecond"))) {
-                if let Some((val, prec)) = us.as_2_tuple() {
-                    (val.as_integer()? as u32, prec.as_integer()? as u8)
-                } else {
-                    (0, 0)
-                }
+                // present but not {Value, Precision}: not a well-formed struct
+                let (val, prec) = us.as_2_tuple()?;
+                (narrow_field::<u32>(val)?, narrow_field::<u8>(prec)?)
             } else {
                 (0, 0)
             };
@@ -671,26 +656,18 @@ impl ElixirDateTime {
         }
 
         let map = term.as_map()?;
-        let year = map.get(&OwnedTerm::Atom(Atom::new("year")))?.as_integer()? as i32;
-        let month = map
-            .get(&OwnedTerm::Atom(Atom::new("month")))?
-            .as_integer()? as u8;
-        let day = map.get(&OwnedTerm::Atom(Atom::new("day")))?.as_integer()? as u8;
-        let hour = map.get(&OwnedTerm::Atom(Atom::new("hour")))?.as_integer()? as u8;
-        let minute = map
-            .get(&OwnedTerm::Atom(Atom::new("minute")))?
-            .as_integer()? as u8;
-        let second = map
-            .get(&OwnedTerm::Atom(Atom::new("second")))?
-            .as_integer()? as u8;
+        let year = narrow_field::<i32>(map.get(&OwnedTerm::Atom(Atom::new("year")))?)?;
+        let month = narrow_field::<u8>(map.get(&OwnedTerm::Atom(Atom::new("month")))?)?;
+        let day = narrow_field::<u8>(map.get(&OwnedTerm::Atom(Atom::new("day")))?)?;
+        let hour = narrow_field::<u8>(map.get(&OwnedTerm::Atom(Atom::new("hour")))?)?;
+        let minute = narrow_field::<u8>(map.get(&OwnedTerm::Atom(Atom::new("minute")))?)?;
+        let second = narrow_field::<u8>(map.get(&OwnedTerm::Atom(Atom::new("second")))?)?;
 
         let (microsecond_value, microsecond_precision) =
             if let Some(us) = map.get(&OwnedTerm::Atom(Atom::new("microsecond"))) {
-                if let Some((val, prec)) = us.as_2_tuple() {
-                    (val.as_integer()? as u32, prec.as_integer()? as u8)
-                } else {
-                    (0, 0)
-                }
+                // present but not {Value, Precision}: not a well-formed struct
+                let (val, prec) = us.as_2_tuple()?;
+                (narrow_field::<u32>(val)?, narrow_field::<u8>(prec)?)
             } else {
                 (0, 0)
             };
@@ -701,12 +678,8 @@ impl ElixirDateTime {
         let zone_abbr = map
             .get(&OwnedTerm::Atom(Atom::new("zone_abbr")))?
             .as_erlang_string()?;
-        let utc_offset = map
-            .get(&OwnedTerm::Atom(Atom::new("utc_offset")))?
-            .as_integer()? as i32;
-        let std_offset = map
-            .get(&OwnedTerm::Atom(Atom::new("std_offset")))?
-            .as_integer()? as i32;
+        let utc_offset = narrow_field::<i32>(map.get(&OwnedTerm::Atom(Atom::new("utc_offset")))?)?;
+        let std_offset = narrow_field::<i32>(map.get(&OwnedTerm::Atom(Atom::new("std_offset")))?)?;
 
         Some(Self {
             year,
